@@ -16,6 +16,7 @@ def parseKind : String → Option Kind
   | "arr" => some .arr
   | "slice" => some .slice
   | "sref" => some .sref
+  | "raw" => some .raw
   | _ => none
 
 /-- capacities for which the harness has an `ArrayVec<[u8; N]>` -/
@@ -38,7 +39,7 @@ def mkStore (k c o : String) : Option Store :=
     else match k with
       | .vec => if old.length ≤ cap then some (Store.fresh k cap old 0) else none
       | .arr => if old.length ≤ cap ∧ arrCaps.contains cap then some (Store.fresh k cap old 0) else none
-      | .slice | .sref => if old.length = cap then some (Store.fresh k cap old 0) else none
+      | .slice | .sref | .raw => if old.length = cap then some (Store.fresh k cap old 0) else none
   | _, _, _ => none
 
 /-- prefix notation: `slice <hex>`, `rep <byte>`, `empty`, `take <n> R`, `chain R R`,
@@ -53,6 +54,10 @@ def parseRdr : Nat → List String → Option (Rdr × List String)
     | some c, some b => some (Rdr.liar c b, rest)
     | _, _ => none
   | _ + 1, "fail" :: b :: rest => (parseByte b).map fun b => (Rdr.fail b, rest)
+  | f + 1, "bufr" :: n :: rest =>
+    match parseUsize n, parseRdr f rest with
+    | some n, some (r, rest') => if n ≤ 4096 then some (Rdr.bufr n [] r, rest') else none
+    | _, _ => none
   | f + 1, "take" :: n :: rest =>
     match parseUsize n, parseRdr f rest with
     | some n, some (r, rest') => some (Rdr.take n r, rest')
